@@ -468,6 +468,14 @@ class Symbols:
                 fv = ev(fn)
                 if isinstance(fv, Ref) and fv.kind in ("pb", "class") and not (fv.kind == "class" and self.is_enum_class(fv)):
                     return Inst(fv)
+                if isinstance(fv, Ref) and fv.kind == "func" and not any(isinstance(a, ast.Starred) for a in e.args) and not any(k.arg is None for k in e.keywords):
+                    # a package function that only builds a table from its arguments (assignments, loops with
+                    # stores / appends, conditionals, a return): folded by a small statement interpreter
+                    fd = self.table(fv.module).get(fv.name)
+                    if fd and fd[0] == "func" and not isinstance(fd[1], ast.AsyncFunctionDef):
+                        r = self._call(fd[1], fv.module, [ev(a) for a in e.args], {k.arg: ev(k.value) for k in e.keywords})
+                        if r is not Unknown:
+                            return r
             if isinstance(fn, ast.Attribute) and not e.keywords and fn.attr in ("startswith", "endswith", "lower", "upper", "removeprefix", "removesuffix"):
                 base = ev(fn.value)
                 sargs = [ev(a) for a in e.args]
@@ -511,6 +519,104 @@ class Symbols:
                     return Unknown
             return "".join(parts)
         return Unknown
+
+    def _call(self, fd: ast.FunctionDef, modname: str, args: list[Any], kwargs: dict[str, Any], depth: int = 0) -> Any:
+        if depth > 3 or fd.decorator_list or fd.args.vararg or fd.args.kwarg:
+            return Unknown
+        params = [a.arg for a in fd.args.posonlyargs + fd.args.args]
+        if len(args) > len(params) or any(a is Unknown for a in args) or any(v is Unknown for v in kwargs.values()):
+            return Unknown
+        env: dict[str, Any] = dict(zip(params, args))
+        for k, v in kwargs.items():
+            if k in env or k not in params + [a.arg for a in fd.args.kwonlyargs]:
+                return Unknown
+            env[k] = v
+        defaults = fd.args.defaults
+        for p_, d in zip(params[len(params) - len(defaults):], defaults):
+            if p_ not in env:
+                env[p_] = self.eval(d, modname)
+        if any(p_ not in env for p_ in params):
+            return Unknown
+        steps = [0]
+
+        class _Ret(Exception):
+            def __init__(self, v: Any) -> None:
+                self.v = v
+
+        class _Give(Exception):
+            pass
+
+        def run(body: list[ast.stmt]) -> str | None:
+            for st in body:
+                steps[0] += 1
+                if steps[0] > 20000:
+                    raise _Give()
+                if isinstance(st, ast.Expr) and isinstance(st.value, ast.Constant):
+                    continue  # docstring
+                if isinstance(st, (ast.Assign, ast.AnnAssign)):
+                    if st.value is None:
+                        continue
+                    v = self.eval(st.value, modname, env)
+                    if v is Unknown:
+                        raise _Give()
+                    if isinstance(v, dict):
+                        v = dict(v)
+                    elif isinstance(v, list):
+                        v = list(v)
+                    for t in st.targets if isinstance(st, ast.Assign) else [st.target]:
+                        if isinstance(t, ast.Name):
+                            env[t.id] = v
+                        elif isinstance(t, ast.Subscript) and isinstance(t.value, ast.Name) and isinstance(env.get(t.value.id), dict):
+                            k = self.eval(t.slice, modname, env)
+                            if k is Unknown:
+                                raise _Give()
+                            try:
+                                env[t.value.id][k] = v
+                            except TypeError:
+                                raise _Give() from None
+                        else:
+                            raise _Give()
+                elif isinstance(st, ast.Expr) and isinstance(st.value, ast.Call) and isinstance(st.value.func, ast.Attribute) and isinstance(st.value.func.value, ast.Name) and st.value.func.attr in ("append", "add") and len(st.value.args) == 1 and isinstance(env.get(st.value.func.value.id), list):
+                    v = self.eval(st.value.args[0], modname, env)
+                    if v is Unknown:
+                        raise _Give()
+                    env[st.value.func.value.id].append(v)
+                elif isinstance(st, ast.For) and not st.orelse:
+                    it = self._iter_items(st.iter, modname, env)
+                    if it is Unknown:
+                        raise _Give()
+                    for item in list(it):
+                        if not _bind(st.target, item, env):
+                            raise _Give()
+                        r = run(st.body)
+                        if r == "break":
+                            break
+                elif isinstance(st, ast.If):
+                    c = self.eval(st.test, modname, env)
+                    if c is Unknown:
+                        raise _Give()
+                    r = run(st.body if c else st.orelse)
+                    if r in ("break", "continue"):
+                        return r
+                elif isinstance(st, ast.Continue):
+                    return "continue"
+                elif isinstance(st, ast.Break):
+                    return "break"
+                elif isinstance(st, ast.Return):
+                    raise _Ret(self.eval(st.value, modname, env) if st.value is not None else None)
+                elif isinstance(st, ast.Pass):
+                    continue
+                else:
+                    raise _Give()
+            return None
+
+        try:
+            run(fd.body)
+        except _Ret as r:
+            return r.v
+        except _Give:
+            return Unknown
+        return None
 
     def _iter_items(self, it: ast.expr, modname: str, env: dict[str, Any]) -> Any:
         v = self.eval(it, modname, env)
